@@ -249,21 +249,3 @@ pub fn verif_read_captured_stream<R: Read>(
     let result = read_captured_stream(reader, cap, overflow_code, &overflow);
     (result, overflow.load(Ordering::SeqCst))
 }
-
-/// Verification hook (feature `verif-hooks`): the private `join_capture` applied to a reader
-/// thread that ends with `result`, with the overflow flag at `flag`.
-///
-/// # Errors
-///
-/// Whatever `join_capture` reports for that reader result and flag.
-#[cfg(feature = "verif-hooks")]
-pub fn verif_join_capture<'arena>(
-    result: io::Result<std::vec::Vec<u8>>,
-    stream: ProcessStream,
-    flag: u8,
-    arena: &'arena Arena,
-) -> Result<Option<ArenaString<'arena>>, ProcessError> {
-    let overflow = AtomicU8::new(flag);
-    let handle = thread::spawn(move || result);
-    join_capture(Some(handle), stream, &overflow, arena)
-}
